@@ -8,7 +8,7 @@
    revisions only through comparisons — this is the "one monotone renaming of revisions".
    [proj_txn]/[proj_range] are the property's projection {Succeeded; the kvs of the range operations of
    the executed branch (key, value, mod revision); prev_kv where asked for; kvs order; Count; More}. *)
-From KB Require Import Model.Etcd Model.C16Cases Proofs.Etcd Proofs.EtcdSim Proofs.EtcdRead Proofs.EtcdHist.
+From KB Require Import Model.Etcd Model.C16Cases Proofs.Etcd Proofs.EtcdSim Proofs.EtcdRead Proofs.EtcdHist Proofs.EtcdWatch.
 Local Open Scope Z_scope.
 
 (* ---- full statements (every history of the four shapes with zero/correct/stale expected revisions,
@@ -83,6 +83,18 @@ Theorem C16_watch_events : forall sb se, R sb se ->
   map proj_event (e_events se) = map proj_event (map shim_event (b_events sb)).
 Proof. exact events_agree. Qed.
 Print Assumptions C16_watch_events.
+
+(* a prefix watch from any start revision: the same events (kind, key, value, mod revision, previous kv on
+   deletes) in the same order on both sides; the event log's well-formedness is kept by EVERY transaction *)
+Theorem C16_watch_prefix : forall sb se p e start,
+  R sb se -> evs_ok sb -> keys_wf sb -> Z.of_N (b_rev sb) < two63 ->
+  wf_bytes p -> Coder.prefix_end_opt p = Some e -> 0 <= start < two63 ->
+  map proj_event (etcd_watch se p e start) = map proj_event (shim_watch sb p (Z.to_N start)).
+Proof. exact watch_agree. Qed.
+Print Assumptions C16_watch_prefix.
+Theorem C16_event_log_wf : forall sb se t, R sb se -> evs_ok sb -> evs_ok (fst (shim_txn sb t)).
+Proof. exact shim_txn_evs_ok. Qed.
+Print Assumptions C16_event_log_wf.
 
 (* ---- any other shape is rejected, never executed as something else *)
 
